@@ -15,8 +15,8 @@ Open Scope N_scope.
 
 (* corollary — every result a step of an accepted execution saves is in the inspection of the run's flow under the
    key the run stores it under, with its category listed (or saved without category): for flows without open_ticket *)
-Theorem c20_results_covered_partial : forall A tr,
-  forallb valid_flow A = true -> no_open_ticket A = true -> accepts A tr = true ->
+Theorem c20_results_covered_partial : forall names A tr,
+  forallb valid_flow A = true -> no_open_ticket A = true -> accepts names A tr = true ->
   forall fid nc, In (fid, nc) (saved_results tr) ->
   exists f, lookup_flow A fid = Some f /\ result_covered f nc.
 Proof. exact results_covered_partial. Qed.
@@ -25,8 +25,8 @@ Print Assumptions c20_results_covered_partial.
 (* the sharp form: every result a step of an accepted execution saves is covered by the inspection of the run's flow,
    OR it is exactly F16 — saved by an open_ticket action of that flow under its result_name.  Other results of
    sessions whose flows contain an open_ticket somewhere are covered like all others. *)
-Theorem c20_results_covered_or_f16 : forall A tr,
-  forallb valid_flow A = true -> accepts A tr = true ->
+Theorem c20_results_covered_or_f16 : forall names A tr,
+  forallb valid_flow A = true -> accepts names A tr = true ->
   forall fid nc, In (fid, nc) (saved_results tr) ->
   exists f, lookup_flow A fid = Some f /\ (result_covered f nc \/ saved_by_open_ticket f nc).
 Proof. exact results_covered_or_f16. Qed.
@@ -34,7 +34,7 @@ Print Assumptions c20_results_covered_or_f16.
 
 (* witness: a flow with one open_ticket action; its execution saves "Ticket", the inspection has no results *)
 Theorem c20_results_covered_refuted :
-  exists A tr, forallb valid_flow A = true /\ accepts A tr = true /\
+  exists A tr, forallb valid_flow A = true /\ accepts [] A tr = true /\
     exists fid nc f, In (fid, nc) (saved_results tr) /\ lookup_flow A fid = Some f /\ ~ result_covered f nc.
 Proof. exact results_covered_refuted. Qed.
 Print Assumptions c20_results_covered_refuted.
@@ -49,7 +49,7 @@ Print Assumptions c20_only_open_ticket_undeclared.
 (* "among the listed ones" is up to letter case (NewResultSpecs merges categories with EqualFold): literal
    membership is false of the model *)
 Theorem c20_category_literally_listed_refuted :
-  exists A tr, forallb valid_flow A = true /\ no_open_ticket A = true /\ accepts A tr = true /\
+  exists A tr, forallb valid_flow A = true /\ no_open_ticket A = true /\ accepts [] A tr = true /\
     exists fid nc f, In (fid, nc) (saved_results tr) /\ lookup_flow A fid = Some f /\
       forall s, In s (inspect_results f) -> rs_key s = snakify (fst nc) -> ~ In (snd nc) (rs_cats s).
 Proof. exact category_literally_listed_refuted. Qed.
@@ -65,8 +65,8 @@ Proof. exact inspect_results_exact. Qed.
 Print Assumptions c20_results_exact.
 
 (* ---- waiting exits: the exit through which a resumed step leaves its wait node is listed *)
-Theorem c20_waiting_exits : forall A tr,
-  forallb valid_flow A = true -> accepts A tr = true ->
+Theorem c20_waiting_exits : forall names A tr,
+  forallb valid_flow A = true -> accepts names A tr = true ->
   forall fid e, In (fid, e) (resumed_exits tr) ->
   exists f, lookup_flow A fid = Some f /\ In e (waiting_exits f).
 Proof. exact waiting_exits_listed. Qed.
@@ -78,13 +78,41 @@ Theorem c20_waiting_exits_exact : forall f e, In e (waiting_exits f) ->
 Proof. exact waiting_exits_only_waits. Qed.
 Print Assumptions c20_waiting_exits_exact.
 
-(* ---- dependencies: every fixed asset reference carried by a step of an accepted execution is listed *)
-Theorem c20_dependencies : forall A tr,
-  accepts A tr = true ->
+(* ---- dependencies.  Full statement (false on the current source, hunt findings 2 and 3):
+        forall names A tr, accepts -> every carried (flow, reference) is in dependencies of that flow.
+      What is missing: inspection would have to list the asset an expression-free name_match / email_match /
+      legacy_vars value names and the default topic of an open_ticket without topic (needs name-only dependencies). *)
+
+(* sharp form: a reference carried by a step of an accepted execution is listed as a dependency of the run's flow, OR
+   it is exactly such an implicitly named asset of a node of that flow *)
+Theorem c20_dependencies_or_implicit : forall names A tr,
+  accepts names A tr = true ->
+  forall fid r, In (fid, r) (assets_touched tr) ->
+  exists f, lookup_flow A fid = Some f
+    /\ ((In r (dependencies f) /\ ref_variable r = false) \/ touched_implicitly names f r).
+Proof. exact dependencies_or_implicit. Qed.
+Print Assumptions c20_dependencies_or_implicit.
+
+(* corollary: flows none of whose nodes names an asset implicitly *)
+Theorem c20_dependencies_partial : forall names A tr,
+  no_implicit names A -> accepts names A tr = true ->
   forall fid r, In (fid, r) (assets_touched tr) ->
   exists f, lookup_flow A fid = Some f /\ In r (dependencies f) /\ ref_variable r = false.
-Proof. exact dependencies_listed. Qed.
-Print Assumptions c20_dependencies.
+Proof. exact dependencies_listed_partial. Qed.
+Print Assumptions c20_dependencies_partial.
+
+(* witnesses: open_ticket without topic where the assets have a topic "General"; a group named by a literal name_match *)
+Theorem c20_dependencies_refuted :
+  exists names A tr, forallb valid_flow A = true /\ accepts names A tr = true /\
+    exists fid r f, In (fid, r) (assets_touched tr) /\ lookup_flow A fid = Some f /\ ~ In r (dependencies f).
+Proof. exact dependencies_listed_refuted. Qed.
+Print Assumptions c20_dependencies_refuted.
+
+Theorem c20_dependencies_refuted_by_name :
+  exists names A tr, forallb valid_flow A = true /\ accepts names A tr = true /\
+    exists fid r f, In (fid, r) (assets_touched tr) /\ lookup_flow A fid = Some f /\ ~ In r (dependencies f).
+Proof. exact dependencies_listed_refuted_by_name. Qed.
+Print Assumptions c20_dependencies_refuted_by_name.
 
 (* ... the list has no duplicates and only references written in some node of the flow *)
 Theorem c20_dependencies_exact : forall f,
@@ -131,24 +159,26 @@ Print Assumptions c20_guards_as_in_source.
    of a child flow, wait, resume by msg or wait timeout, routing, return to the parent), for every instantiation of
    its oracles (which category the tests pick, which outcome an action has, which written references its events
    carry), every fuel, start flow and resume history — not relative to an acceptor: [exec] computes the trace *)
-Theorem c20_engine_results_covered_or_f16 : forall A pick act touch msg_trigger fuel fid history,
+Theorem c20_engine_results_covered_or_f16 : forall names A pick act touch msg_trigger fuel fid history,
   forallb valid_flow A = true ->
-  forall fl nc, In (fl, nc) (saved_results (exec A pick act touch msg_trigger fuel fid history)) ->
+  forall fl nc, In (fl, nc) (saved_results (exec names A pick act touch msg_trigger fuel fid history)) ->
   exists f, lookup_flow A fl = Some f /\ (result_covered f nc \/ saved_by_open_ticket f nc).
 Proof. exact engine_results_covered_or_f16. Qed.
 Print Assumptions c20_engine_results_covered_or_f16.
 
-Theorem c20_engine_waiting_exits : forall A pick act touch msg_trigger fuel fid history,
+Theorem c20_engine_waiting_exits : forall names A pick act touch msg_trigger fuel fid history,
   forallb valid_flow A = true ->
-  forall fl e, In (fl, e) (resumed_exits (exec A pick act touch msg_trigger fuel fid history)) ->
+  forall fl e, In (fl, e) (resumed_exits (exec names A pick act touch msg_trigger fuel fid history)) ->
   exists f, lookup_flow A fl = Some f /\ In e (waiting_exits f).
 Proof. exact engine_waiting_exits. Qed.
 Print Assumptions c20_engine_waiting_exits.
 
-(* (the engine carries only references written in the node it visits — [touch] filters node_asset_refs — so this
-   clause is the static fact that extraction and de-duplication lose no fixed reference) *)
-Theorem c20_engine_dependencies : forall A pick act touch msg_trigger fuel fid history,
-  forall fl r, In (fl, r) (assets_touched (exec A pick act touch msg_trigger fuel fid history)) ->
-  exists f, lookup_flow A fl = Some f /\ In r (dependencies f) /\ ref_variable r = false.
-Proof. exact engine_dependencies. Qed.
-Print Assumptions c20_engine_dependencies.
+(* (the engine carries only assets the node it visits names, by reference, template path, literal name or default —
+   [touch] selects among them — so this clause is the static fact that extraction and de-duplication lose no fixed
+   reference, plus the exact exception) *)
+Theorem c20_engine_dependencies_or_implicit : forall names A pick act touch msg_trigger fuel fid history,
+  forall fl r, In (fl, r) (assets_touched (exec names A pick act touch msg_trigger fuel fid history)) ->
+  exists f, lookup_flow A fl = Some f
+    /\ ((In r (dependencies f) /\ ref_variable r = false) \/ touched_implicitly names f r).
+Proof. exact engine_dependencies_or_implicit. Qed.
+Print Assumptions c20_engine_dependencies_or_implicit.
